@@ -872,7 +872,8 @@ theorem readOperand_fuel_step (n : Nat) (ih : FuelOK n) (s : List Char) (hn : 2 
               · trivial
               · next sub rest hrp =>
                 have h1 := readPaired_length hrp
-                have hd := List.length_drop (i := (if startsWith (getBoolSign s).1 "len(" = true then "len" else "in").length)
+                have hd := List.length_drop (i := (if startsWith (getBoolSign s).1 "len(" = true then "len" else if startsWith (getBoolSign s).1 "in(" = true then "in"
+                    else if startsWith (getBoolSign s).1 "vdpt(" = true then "vdpt" else "vdid").length)
                   (l := (getBoolSign s).1)
                 have ha := ih.args (',' :: sub) [] (by simp only [List.length_cons]; omega)
                 split
